@@ -67,10 +67,11 @@ func (a c18answer) label() string {
 
 type c18stub struct {
 	arvadostest.APIStub
-	id      string // cluster id, "" for the local backend
-	ans     c18answer
-	release chan struct{} // closed by the harness: the answer may be sent
-	abort   chan struct{} // closed at the end of the case (never leaks a goroutine)
+	id       string // cluster id, "" for the local backend
+	ans      c18answer
+	release  chan struct{} // closed by the harness: the answer may be sent
+	released bool          // harness-side flag: release has been closed
+	abort    chan struct{} // closed at the end of the case (never leaks a goroutine)
 
 	mu       sync.Mutex
 	ctxs     []context.Context
@@ -137,6 +138,10 @@ func c18ctx() context.Context {
 func c18genManifest(t *rapid.T) (*mgen.Manifest, []string) {
 	m := mgen.Gen(t, mgen.GenOpts{Signed: true, MaxStreams: 3, MaxBlocks: 4, MaxFiles: 4})
 	labels := fedgen.Decorate(t, m, true)
+	if rapid.IntRange(0, 9).Draw(t, "signAll") < 3 {
+		fedgen.SignAll(t, m)
+		labels = append(labels, "all-locators-signed")
+	}
 	return m, labels
 }
 
@@ -258,6 +263,7 @@ func TestVerifC18CollectionGetByPDH(t *testing.T) {
 		if mode == "prereleased" {
 			for _, st := range stubs {
 				close(st.release)
+				st.released = true
 			}
 		}
 
@@ -309,6 +315,7 @@ func TestVerifC18CollectionGetByPDH(t *testing.T) {
 					break
 				}
 				close(st.release)
+				st.released = true
 				releasedOrder = append(releasedOrder, st.id+":"+st.ans.label())
 				if mode == "sequenced" && st.ans.kind != c18Hang {
 					if waitFor(st.returned, "remote "+st.id+" to return") {
@@ -347,11 +354,20 @@ func TestVerifC18CollectionGetByPDH(t *testing.T) {
 			kind      string
 			cancelled bool
 		}
+		// Only requests that are certainly still outstanding are looked at: a
+		// hanging remote, or one whose answer the harness has not released.
 		var obs []ctxObs
 		for _, st := range stubs {
+			if st.ans.kind != c18Hang && st.released {
+				continue
+			}
 			st.mu.Lock()
 			for _, cx := range st.ctxs {
-				obs = append(obs, ctxObs{st.id, st.ans.kind, cx.Err() != nil})
+				kind := st.ans.kind
+				if kind != c18Hang {
+					kind = "unreleased " + kind
+				}
+				obs = append(obs, ctxObs{st.id, kind, cx.Err() != nil})
 			}
 			st.mu.Unlock()
 		}
@@ -423,6 +439,8 @@ func TestVerifC18CollectionGetByPDH(t *testing.T) {
 				}
 				if o.kind == c18Hang {
 					labels = append(labels, "hang-cancelled-after-winner")
+				} else {
+					labels = append(labels, "unreleased-cancelled-after-winner")
 				}
 			}
 			labels = append(labels, "outcome:success")
